@@ -6,7 +6,7 @@
   L1  `Babylon.Anyflow.Dep`    ONE `GraphDependency` at atomic granularity (counter `_waiting_num`,
       three actors A / C b / T whose atomic sub-steps interleave freely, each actor may or may not
       occur).  Finite state space ⇒ `dep_protocol_exhaustive` is a certified closed set evaluated by
-      the kernel (283 reachable states).
+      the kernel (694 reachable states).
   L2  `Babylon.Anyflow.Graph`  arbitrary finite DAG; dependencies replaced by the specification
       proved in L1; vertex / data / closure mechanisms concrete; invariants over every schedule.
 -/
@@ -58,6 +58,13 @@ theorem gen_skel_closure :
 theorem gen_skel_graph :
     skel_graph_run = Graph.Skel.graphRun ∧ skel_graph_reset = Graph.Skel.graphReset ∧
     skel_inplace_run = Graph.Skel.inplaceRun ∧ skel_pool_run = Graph.Skel.poolRun := by decide
+
+set_option maxRecDepth 100000 in
+/-- `reset()` re-initialises exactly the fields the model's `reset` event re-initialises (text of
+`GraphDependency::reset`, `GraphVertex::reset`, `GraphData::reset`, `Graph::reset`, whitespace removed). -/
+theorem gen_reset_text :
+    resetTextDependency = Graph.Skel.resetDependency ∧ resetTextVertex = Graph.Skel.resetVertex ∧
+    resetTextData = Graph.Skel.resetData ∧ resetTextGraph = Graph.Skel.resetGraph := by decide +kernel
 
 /-! ## L1 — the dependency counter protocol -/
 
